@@ -114,14 +114,21 @@ func init() {
 		}
 		// through AdoptSession and connect: a damaged record is warned about, not adopted, not transmitted
 		if e.shard == 0 {
-			for _, kind := range []string{"publish", "clientid"} {
+			for _, kind := range []string{"publish", "clientid", "pubrel", "marker"} {
 				st := newPlainStore()
 				st.m[0] = refEncodeValue([]byte("cid"), 1)
 				rec := refEncodeValue(encPublish(1, false, false, 0x8000, "t", []byte("DAMAGED-PAYLOAD")), 2)
 				st.m[0x8000] = rec
 				key := uint(0x8000)
-				if kind == "clientid" {
+				switch kind {
+				case "clientid":
 					key = 0
+				case "pubrel": // an exactly-once transfer awaiting PUBCOMP
+					key = 0xc000
+					st.m[key] = refEncodeValue(encAck(tPUBREL, 0xc000), 3)
+				case "marker": // an inbound exactly-once message awaiting PUBREL
+					key = 0x10007
+					st.m[key] = refEncodeValue(encAck(tPUBREC, 7), 3)
 				}
 				// every single-byte flip, then every truncation (as a non-nil slice, also the empty one)
 				full := len(st.m[key])
@@ -145,6 +152,17 @@ func init() {
 					if fatal != nil {
 						e.violate("C15", "adopt-fatal-on-damage", "AdoptSession failed on a damaged %s record: %v", kind, fatal)
 						continue
+					}
+					if kind == "pubrel" || kind == "marker" {
+						if len(warn) == 0 {
+							e.violate("C15", "damage-not-warned#"+kind, "damaged %s record (position %d) adopted without warning", kind, pos)
+						}
+						if _, n := mqtt.VerifQueueLens(cl); n != 0 && kind == "pubrel" {
+							e.violate("C15", "damaged-record-adopted#pubrel", "damaged PUBREL record (position %d) became a pending transfer", pos)
+						}
+						if v, _ := s2.Load(key); v != nil && kind == "marker" {
+							e.violate("C15", "damaged-record-adopted#marker", "damaged marker record (position %d) is still in store after AdoptSession: the identifier stays blocked", pos)
+						}
 					}
 					if kind == "publish" {
 						if len(warn) == 0 {
@@ -171,7 +189,7 @@ func init() {
 						}
 					}
 					conn.mu.Lock()
-					if bytes.Contains(conn.out, []byte("DAMAGED")) {
+					if bytes.Contains(conn.out, []byte("DAMAGED")) && (kind == "publish" || kind == "clientid") { // otherwise the PUBLISH record is intact and due
 						e.violate("C15", "damaged-record-transmitted", "bytes of a damaged record reached the wire")
 					}
 					conn.mu.Unlock()
